@@ -59,7 +59,7 @@ CONSTANTS
   NF = %d
   Modes = {0, 1}
   Full = %s
-INVARIANTS CountMatches RootsMatchNaive ProofsMatchNaive MemberSound SupplementSound HistorySound CarrierSound KindsDisjoint ReuseSound
+INVARIANTS CountMatches RootsMatchNaive ProofsMatchNaive MemberSound SupplementSound HistorySound CarrierSound KindsDisjoint ReuseSound TxnSound
 CHECK_DEADLOCK FALSE
 `, maxH, maxAdd, maxLeaves, minInit, maxInit, nfModel, map[bool]string{true: "TRUE", false: "FALSE"}[full])
 }
@@ -287,7 +287,7 @@ func finish(c *vlib.Ctx, st *stats, traces int64) {
 	for _, n := range st.asks {
 		evals += n
 	}
-	for _, d := range []string{"shim", "vte", "v2txn", "supp", "supp-used", "supp-placed", "supp-used-placed", "supp-form", "supp-form-placed", "supp-post-require", "inblock", "inblock-block", "reuse", "reuse-block"} {
+	for _, d := range []string{"shim", "vte", "v2txn", "supp", "supp-used", "supp-placed", "supp-used-placed", "supp-form", "supp-form-placed", "supp-post-require", "inblock", "inblock-block", "reuse", "reuse-block", "vte-multi"} {
 		if st.asks[d] == 0 {
 			c.Infra("vacuity: door %s never used", d)
 		}
@@ -346,6 +346,10 @@ func finish(c *vlib.Ctx, st *stats, traces int64) {
 	}
 	if v := st.verdicts["supp-post-require:expiring-contract"]; v == nil || v[0] == 0 || st.postGenuine == 0 {
 		c.Infra("vacuity: no (genuine) v1 contract presented in a supplement after RequireHeight (%v, genuine %d)", v, st.postGenuine)
+	}
+	// position in a multi-element transaction
+	for _, r := range multiRoles() {
+		need = append(need, "vte-multi:"+r)
 	}
 	// second use in the block: after an honest revision both verdicts, alone and in the whole block; after a spend
 	// the doors must have been asked
